@@ -46,6 +46,10 @@ func scenarios(tier string) []vlib.Scenario {
 	// Conn.Close during an outage whose redials all fail (broker unreachable): must return within its context
 	out = append(out, vlib.Scenario{Name: params{"closeoutage", 0, 0}.name(), P: params{"closeoutage", 0, 0}})
 	out = append(out, vlib.Scenario{Name: params{"closeoutage", 0, 1}.name(), P: params{"closeoutage", 0, 1}})
+	// Conn.Close (and an unrelated call) while another call's request stays unanswered
+	for _, a := range []string{"closepending-openup", "closepending-meta", "closepending-call"} {
+		out = append(out, vlib.Scenario{Name: params{a, 0, 0}.name(), P: params{a, 0, 0}})
+	}
 	if tier == "thorough" {
 		for _, a := range apis {
 			if a != "openup" && a != "meta" && a != "upclose" && a != "connclose" {
@@ -79,6 +83,7 @@ type callRec struct {
 }
 
 type world struct {
+	pendingKind         string
 	followupFaults      int
 	connectedAtFollowup bool
 	lateSecond          bool
@@ -132,6 +137,18 @@ func (w *world) script() *sim.Script {
 	w.rxn = map[string]int{}
 	s.AcceptDial = func(n int, cfg transport.DialConfig) (bool, time.Duration) { return !w.unreachable, 0 }
 	s.OnMessage = func(b *sim.Broker, c *sim.BConn, m message.Message) bool {
+		if w.pendingKind != "" {
+			switch r := m.(type) {
+			case *message.UpstreamOpenRequest:
+				return r.SessionID == "never-answered"
+			case *message.UpstreamMetadata:
+				if bt, ok := r.Metadata.(*message.BaseTime); ok && bt.Name == "never-answered" {
+					return true
+				}
+			case *message.UpstreamCall:
+				return r.Name == "never-answered"
+			}
+		}
 		if (w.Phase != "call" && w.Phase != "followup") || !w.eligible(m) || (c.Idx == 0 && w.Phase != "call") {
 			return false
 		}
@@ -290,6 +307,32 @@ func (w *world) main() {
 	}
 	w.Phase = "call"
 	switch api {
+	case "closepending-openup", "closepending-meta", "closepending-call":
+		// another goroutine's request is never answered (it has a long context of its own)
+		w.pendingKind = strings.TrimPrefix(api, "closepending-")
+		var pwg vsched.WaitGroup
+		pwg.Add(1)
+		vsched.Go("h:pending-call", func() {
+			defer pwg.Done()
+			pctx, pcancel := kit.Ctx(40 * time.Second)
+			defer pcancel()
+			switch w.pendingKind {
+			case "openup":
+				w.Conn.OpenUpstream(pctx, "never-answered")
+			case "meta":
+				w.Conn.SendMetadata(pctx, &message.BaseTime{SessionID: "s", Name: "never-answered"})
+			case "call":
+				w.Conn.SendCall(pctx, &iscp.UpstreamCall{DestinationNodeID: "d", Name: "never-answered", Type: "t"})
+			}
+		})
+		vsched.Quiesce()
+		// an unrelated call with its own short context, then Close
+		w.timed("SendMetadata", callTimeout, false, func(ctx context.Context) error {
+			return w.Conn.SendMetadata(ctx, &message.BaseTime{SessionID: "s", Name: "other"})
+		})
+		w.timed("Conn.Close", callTimeout, false, func(ctx context.Context) error { return w.Conn.Close(ctx) })
+		pwg.Wait()
+		api = "connclose"
 	case "closeoutage":
 		w.unreachable = true
 		w.B.Cut(w.B.Live())
